@@ -144,6 +144,15 @@ func runSkipper(which int, b []byte, t byte, r *rand.Rand, sched int, withData b
 			if len(b) <= 400 && r.Intn(4) == 0 {
 				src.Churn = func() { san.PoolChurn(2048) } // the reader itself uses the shared pool
 			}
+			switch r.Intn(6) {
+			case 0:
+				src.ZeroMax = 2
+			case 1:
+				if len(b) < 2000 {
+					src.ZeroRun = 1 + r.Intn(2) // many empty reads inside one value, with progress in between
+					src.Budget += src.ZeroRun * (len(b) + 100)
+				}
+			}
 			d := thrift.NewReaderSkipDecoder(src)
 			defer d.Release()
 			out, err := d.Next(tt)
